@@ -122,6 +122,13 @@ func vMkWorld() *vWorld {
 		}
 	}
 	w.assumeInv()
+	verifLockProbe = func() bool {
+		if m.TryLock() {
+			m.Unlock()
+			return true
+		}
+		return false
+	}
 	return w
 }
 
@@ -261,6 +268,7 @@ func VerifH_mestep() {
 		t.f()
 	}
 	verifReach("after op")
+	verifAssert(verifLocksFree(), "C13,C14: operation left the MultiEndpoint's lock held (every later call, including Current(), would block)")
 	w.classify()
 	v1 := vLook(m)
 	w.assertInv()
